@@ -516,22 +516,26 @@ func c09Apply(st *c09State, mu MutC09) string {
 		if ty == 0x0D {
 			ty = 0x0C
 		}
+		// an identifier of the length SCTE 35 prescribes for the type (nothing for "not used", 8 / 12 / 32 bytes for the
+		// fixed-size types): a setter may refuse anything else
+		_, data := fixUPIDLen(ty, clone(mu.Data))
 		d.SetUPIDType(scte35.SegUPIDType(ty))
-		d.SetUPID(st.window(mu.Data))
-		md.UPIDType, md.UPID, md.MID = ty, clone(mu.Data), []ref.SegUPID{}
+		d.SetUPID(st.window(data))
+		md.UPIDType, md.UPID, md.MID = ty, clone(data), []ref.SegUPID{}
 	case 33:
 		d.SetUPIDType(0x0D)
 		var ms []scte35.UPID
 		md.MID = []ref.SegUPID{}
 		for i := 0; i < int(mu.V%3); i++ {
 			u := scte35.CreateUPID()
+			_, data := fixUPIDLen(byte(i+1), clone(mu.Data))
 			u.SetUPIDType(scte35.SegUPIDType(byte(i + 1)))
-			u.SetUPID(st.window(mu.Data))
+			u.SetUPID(st.window(data))
 			if mu.B {
 				u = c09WrappedUPID{inner: u} // the setter takes the interface: any implementation must do
 			}
 			ms = append(ms, u)
-			md.MID = append(md.MID, ref.SegUPID{Type: byte(i + 1), Body: clone(mu.Data)})
+			md.MID = append(md.MID, ref.SegUPID{Type: byte(i + 1), Body: clone(data)})
 		}
 		d.SetMID(ms)
 		md.UPIDType, md.UPID = 0x0D, ref.Hex{}
